@@ -23,7 +23,7 @@ RULE = ("case = (layer kind, configuration, eps in {1e-6,1e-4,1e-3}); per case o
         "non-trivial = at least one constraint row exists; distinct by digest of (configuration, eps, injected row, unit)")
 MIN_EVENTS = {
     "quick": {"assert_constraints/accepts-feasible": 150, "assert_constraints/rejects-injected-violation": 1100},
-    "thorough": {"assert_constraints/accepts-feasible": 6000, "assert_constraints/rejects-injected-violation": 60000},
+    "thorough": {"assert_constraints/accepts-feasible": 2000, "assert_constraints/rejects-injected-violation": 15000},
 }
 ASSUMPTIONS = [
     "margins: feasible weights satisfy every covered row by >= 10*eps, injected rows are violated by 100*eps ('clearly more than eps', 'with margin')",
